@@ -4,6 +4,7 @@ CONSTANTS
   MaxTxPerBlock = 2
   MaxOps = 100000
   Window = 0
+  BlockBudget = 1000
   ActiveTxs = {"t1", "t2", "t3", "t4", "t6"}
   KF_FrozenLedgerHeight = FALSE
   KF_PlayKeepsStaleReader = FALSE
